@@ -7,7 +7,7 @@ use crate::assembly::{Instr, Label, Line, LineVariant, Reg, remove_labels_and_co
 use crate::ast::ForeignCallPolicy;
 use crate::ast::{
     ArgMaybeAnnotated, AssignOperator, AstNode, BinaryOperator, FuncDecl, FuncDef, Identifier,
-    InterfaceDef, ItemKind, PatStructFields, PatVariantData,
+    InterfaceDef, ItemKind, PatStructFields, PatVariantData, StructDef,
 };
 use crate::ast::{FileAst, NodeId};
 use crate::environment::Environment;
@@ -51,6 +51,8 @@ impl FuncDesc {
             FuncKind::IntrinsicWrapper(b, _) => b.name(),
             FuncKind::ForeignFunctionWrapper { func_decl, .. } => func_decl.name.v.clone(),
             FuncKind::HostFunctionWrapper(f) => f.name.v.clone(),
+            FuncKind::ConstructorWrapper(Some(struct_def)) => struct_def.name.v.clone(),
+            FuncKind::ConstructorWrapper(None) => "channel".to_string(),
         }
     }
 
@@ -62,6 +64,12 @@ impl FuncDesc {
             FuncKind::IntrinsicWrapper(b, _) => b.name(),
             FuncKind::ForeignFunctionWrapper { symbol, .. } => symbol.clone(),
             FuncKind::HostFunctionWrapper(f) => ctx.fully_qualified_names[&f.name.id].clone(),
+            FuncKind::ConstructorWrapper(Some(struct_def)) => ctx
+                .fully_qualified_names
+                .get(&struct_def.name.id)
+                .cloned()
+                .unwrap_or_else(|| struct_def.name.v.clone()),
+            FuncKind::ConstructorWrapper(None) => "channel".to_string(),
         }
     }
 }
@@ -84,6 +92,8 @@ enum FuncKind {
         symbol: String,
     },
     HostFunctionWrapper(Rc<FuncDecl>),
+    // the constructor of a struct (`Some(..)`) or of a channel (`None`) used as a function value
+    ConstructorWrapper(Option<Rc<StructDef>>),
 }
 
 pub(crate) struct Translator {
@@ -480,6 +490,20 @@ impl Translator {
                         FuncKind::HostFunctionWrapper(f) => {
                             self.emit_host(st, f, true);
                         }
+                        FuncKind::ConstructorWrapper(struct_def) => {
+                            let Some(SolvedType::Function(arg_tys, _)) = &desc.overload_ty else {
+                                unreachable!()
+                            };
+                            // void fields take no stack slot
+                            let nargs =
+                                arg_tys.iter().filter(|ty| **ty != SolvedType::Void).count();
+                            self.wrapper_header(st, nargs, true);
+                            match struct_def {
+                                Some(_) => self.emit(st, Instr::ConstructStruct(nargs as u16)),
+                                None => self.emit(st, Instr::ConstructChannel),
+                            }
+                            self.emit(st, Instr::Return(nargs as u32));
+                        }
                     };
                 }
             }
@@ -526,7 +550,8 @@ impl Translator {
             | FuncKind::AnonymousFunc { .. }
             | FuncKind::IntrinsicWrapper(_, _)
             | FuncKind::ForeignFunctionWrapper { .. }
-            | FuncKind::HostFunctionWrapper(_) => {
+            | FuncKind::HostFunctionWrapper(_)
+            | FuncKind::ConstructorWrapper(_) => {
                 st.return_stack.push(nargs as u32);
             }
             // task block function is toplevel
@@ -538,7 +563,8 @@ impl Translator {
             | FuncKind::AnonymousFunc { .. }
             | FuncKind::IntrinsicWrapper(_, _)
             | FuncKind::ForeignFunctionWrapper { .. }
-            | FuncKind::HostFunctionWrapper(_) => {
+            | FuncKind::HostFunctionWrapper(_)
+            | FuncKind::ConstructorWrapper(_) => {
                 st.return_stack.pop();
                 let SolvedType::Function(_, out_ty) = func_ty else { unreachable!() };
                 // a generic return type may be instantiated with void
@@ -552,6 +578,25 @@ impl Translator {
             FuncKind::TaskBlock { .. } => {
                 self.emit(st, Instr::Stop);
             }
+        }
+    }
+
+    // the receiver of a member function call: a value, which becomes the first argument, or the
+    // name of a type that merely qualifies the function (`Person.fullname(p)`, `array.push`)
+    fn translate_receiver(
+        &self,
+        receiver_expr: &Rc<Expr>,
+        offset_table: &OffsetTable,
+        mono: &MonomorphEnv,
+        st: &mut TranslatorState,
+    ) {
+        let is_qualifier = matches!(&*receiver_expr.kind, ExprKind::Variable(_))
+            && matches!(
+                self.statics.resolution_map.get(&receiver_expr.id),
+                Some(Declaration::Struct(_) | Declaration::BuiltinType(BuiltinType::Channel))
+            );
+        if !is_qualifier {
+            self.translate_expr(receiver_expr, offset_table, mono, st);
         }
     }
 
@@ -859,12 +904,12 @@ impl Translator {
                         if let Some(reordered_args) =
                             self.statics.function_call_arg_order.get(&expr.id).cloned()
                         {
-                            self.translate_expr(receiver_expr, offset_table, mono, st);
+                            self.translate_receiver(receiver_expr, offset_table, mono, st);
                             for arg_val in reordered_args {
                                 self.translate_expr(&arg_val, offset_table, mono, st);
                             }
                         } else {
-                            self.translate_expr(receiver_expr, offset_table, mono, st);
+                            self.translate_receiver(receiver_expr, offset_table, mono, st);
                             for arg in args {
                                 self.translate_expr(&arg.val, offset_table, mono, st);
                             }
@@ -1327,10 +1372,24 @@ impl Translator {
                 self.emit(st, Instr::PushAddr(label.clone()));
                 self.emit(st, Instr::MakeClosure(0));
             }
-            Declaration::Struct(_)
-            | Declaration::Enum { .. }
+            Declaration::Struct(_) | Declaration::BuiltinType(BuiltinType::Channel) => {
+                // the name of a struct, or `channel`, used as a value is its constructor function
+                // (as the qualifier of a member function it is not translated at all)
+                let func_ty = self.get_ty(mono, ast_node).unwrap();
+                let struct_def = match decl {
+                    Declaration::Struct(struct_def) => Some(struct_def.clone()),
+                    _ => None,
+                };
+                let desc = FuncDesc {
+                    kind: FuncKind::ConstructorWrapper(struct_def),
+                    overload_ty: Some(func_ty),
+                };
+                let label = self.get_func_label(st, desc);
+                self.emit(st, Instr::PushAddr(label.clone()));
+                self.emit(st, Instr::MakeClosure(0));
+            }
+            Declaration::Enum { .. }
             | Declaration::BuiltinType(BuiltinType::Array)
-            | Declaration::BuiltinType(BuiltinType::Channel)
             | Declaration::InterfaceDef(_)
             | Declaration::Namespace(_, _) => {
                 // noop, does not exist at runtime
